@@ -431,7 +431,42 @@ def r6_mask_table(r, facts):
     r.floor(31)
 
 
+def r3b_by_mask_value(r, facts):
+    """by value over every event bit of <linux/inotify.h>: a record whose mask is exactly that bit is handed to the
+    caller unless it is IN_IGNORED / IN_Q_OVERFLOW, and the watch is forgotten for IN_IGNORED only"""
+    from .kernel import specialise_value
+    f = facts.fn(POLL_SYS)
+    ys = yields(f)
+    if not r.require(len(ys) == 1, 'poll_sys', 'event yield site not found', f.where()):
+        return
+    hv = inotify_header()
+    single = {n: v for n, v in hv.items() if bin(v).count('1') == 1 and v < (1 << 32) and n not in ('IN_ONLYDIR', 'IN_DONT_FOLLOW', 'IN_EXCL_UNLINK', 'IN_MASK_CREATE', 'IN_MASK_ADD', 'IN_ONESHOT', 'IN_CLOEXEC', 'IN_NONBLOCK')}
+    if not r.require(len(single) >= 14 and 'IN_IGNORED' in single and 'IN_UNMOUNT' in single, 'inotify.h', 'event bits not found in %s' % INOTIFY_H):
+        return
+
+    def subj(e):
+        return fam.last_field(e) == 'mask'
+    rm = [loc for loc, t in f.calls() if ((t.get('callee') or '').endswith('::remove')) and 'HashMap' in (t.get('callee_full') or '')]
+    n = 0
+    for name, v in sorted(single.items(), key=lambda kv: kv[1]):
+        g, decided = specialise_value(f, subj, v, ExprBuilder(f), bits=32)
+        reach = g.reachable_blocks(0)
+        yielded = ys[0][0] in reach
+        forgotten = any(l[0] in reach for l in rm)
+        want_y = name not in ('IN_IGNORED', 'IN_Q_OVERFLOW')
+        want_f = name == 'IN_IGNORED'
+        n += 1
+        r.inst('%s (%#x): yielded=%s forgotten=%s' % (name, v, yielded, forgotten), f.where())
+        if not decided:
+            r.bad('poll_sys/mask-tests', 'no test of the record mask was found (by value)', f.where())
+            break
+        r.require(yielded == want_y, 'poll_sys/by-mask:%s/yield' % name, 'a record with mask %s is %s' % (name, 'never handed to the caller (the event is lost)' if want_y else 'handed to the caller'), f.where())
+        r.require(forgotten == want_f, 'poll_sys/by-mask:%s/forget' % name, 'a record with mask %s %s' % (name, 'makes the watcher forget the watch although the kernel has not removed it (later events for it lose their path)' if not want_f else 'does not make the watcher forget the watch'), f.where())
+    r.floor(14)
+
+
 def check(ctx):
+    ctx.run('C17.R3b', 'per event bit of <linux/inotify.h>, by value: yielded unless IN_IGNORED/IN_Q_OVERFLOW; watch forgotten only for IN_IGNORED', r3b_by_mask_value)
     ctx.run('C17.R2', 'decoder bounds: header deref under buf.len() > processed; BUF_SIZE covers one maximal record', r2_bounds)
     ctx.run('C17.R3', 'IN_IGNORED forgets the watch; IN_IGNORED / IN_Q_OVERFLOW records are never yielded', r3_filtered)
     ctx.run('C17.R5', 'wd -> path table: stored under the wd the kernel returned with the path given to it; path_for joins the path looked up by event.wd with the event\'s name', r5_watch_paths)
